@@ -63,8 +63,10 @@ static void do_op(const char *op)
     else if (!strcmp(op, "close")) { int id = get_ncid(); rc = ncmpi_close(id); OUT(" rc=%d", rc); }
     else if (!strcmp(op, "abort")) { rc = ncmpi_abort(get_ncid()); OUT(" rc=%d", rc); }
     else if (!strcmp(op, "redef")) { rc = ncmpi_redef(get_ncid()); OUT(" rc=%d", rc); }
-    else if (!strcmp(op, "enddef")) { rc = ncmpi_enddef(get_ncid()); OUT(" rc=%d", rc); }
-    else if (!strcmp(op, "_enddef")) { rc = ncmpi__enddef(get_ncid(), argi("h_minfree", 0), argi("v_align", 0), argi("v_minfree", 0), argi("r_align", 0)); OUT(" rc=%d", rc); }
+    /* inside enddef the file traffic is the library's own (header, data movement, fill): its accesses are checked for
+     * cross-rank conflicts that no synchronising collective orders (board.c, race check) */
+    else if (!strcmp(op, "enddef")) { shim_race_on = 1; rc = ncmpi_enddef(get_ncid()); if (g_np > 1 && g_lockstep) board_barrier(3000000 + g_line); shim_race_flush(); shim_race_on = 0; OUT(" rc=%d", rc); }
+    else if (!strcmp(op, "_enddef")) { shim_race_on = 1; rc = ncmpi__enddef(get_ncid(), argi("h_minfree", 0), argi("v_align", 0), argi("v_minfree", 0), argi("r_align", 0)); if (g_np > 1 && g_lockstep) board_barrier(3000000 + g_line); shim_race_flush(); shim_race_on = 0; OUT(" rc=%d", rc); }
     else if (!strcmp(op, "sync")) { rc = ncmpi_sync(get_ncid()); OUT(" rc=%d", rc); }
     else if (!strcmp(op, "flush")) { rc = ncmpi_flush(get_ncid()); OUT(" rc=%d", rc); }
     else if (!strcmp(op, "sync_numrecs")) { rc = ncmpi_sync_numrecs(get_ncid()); OUT(" rc=%d", rc); }
@@ -179,7 +181,7 @@ int main(int argc, char **argv)
                 board_case_reset(sched, npre, prefix);
             }
             PMPI_Barrier(MPI_COMM_WORLD);
-            shim_case_reset(fr == g_rank ? fn : 0, fc); shim_trace_on = trace_on;
+            shim_case_reset(fr == g_rank ? fn : 0, fc); shim_trace_on = trace_on; shim_race_case_reset();
             ledger_mark(); g_t0 = now_s(); g_rss0 = rss_kb();
             OUT("B %d %s\n", g_case, g_casename);
             continue;
@@ -207,7 +209,8 @@ int main(int argc, char **argv)
         if (!in_case || ntok < 2) continue;
         g_line++;
         if (!in_rankset(tok[0])) continue;
-        if (!strcmp(tok[0], "*")) board_barrier(lineno);
+        g_lockstep = !strcmp(tok[0], "*");
+        if (g_lockstep) board_barrier(lineno);
         board_set_op(g_line);
         shim_trace_len = 0; shim_trace[0] = 0;
         {
